@@ -191,13 +191,6 @@ func flight4Parse(
 		cfg.WriteKeyLog(keyLogLabel, clientRandom[:], state.MasterSecret)
 	}
 
-	if len(state.SessionID) > 0 {
-		cfg.Log.Tracef("[handshake] save new session: %x", state.SessionID)
-		if err := cfg.SetSession(state.SessionID, state.SessionID, state.MasterSecret); err != nil {
-			return 0, &alert.Alert{Level: alert.Fatal, Description: alert.InternalError}, err
-		}
-	}
-
 	// Now, encrypted packets can be handled
 	if err := conn.HandleQueuedPackets(ctx); err != nil {
 		return 0, &alert.Alert{Level: alert.Fatal, Description: alert.InternalError}, err
@@ -240,7 +233,7 @@ func flight4Parse(
 			}
 		}
 
-		return Flight6, nil, nil
+		return saveSessionAndFinish(state, cfg)
 	}
 
 	switch cfg.ClientAuth {
@@ -265,6 +258,23 @@ func flight4Parse(
 	if cfg.VerifyConnection != nil {
 		if err := cfg.VerifyConnection(state); err != nil {
 			return 0, &alert.Alert{Level: alert.Fatal, Description: alert.BadCertificate}, err
+		}
+	}
+
+	return saveSessionAndFinish(state, cfg)
+}
+
+// saveSessionAndFinish stores the session for resumption and moves on to Flight 6.
+// The session becomes resumable only here: the client's Finished proved that it
+// holds the master secret and the client-authentication policy is satisfied. Stored
+// any earlier (e.g. on ClientKeyExchange), a client that never sends the required
+// certificate could stall this handshake and resume the session on another
+// connection, where no client authentication takes place.
+func saveSessionAndFinish(state *dtlsstate.State12, cfg *dtlsconfig.HandshakeConfig) (Flight, *alert.Alert, error) {
+	if len(state.SessionID) > 0 {
+		cfg.Log.Tracef("[handshake] save new session: %x", state.SessionID)
+		if err := cfg.SetSession(state.SessionID, state.SessionID, state.MasterSecret); err != nil {
+			return 0, &alert.Alert{Level: alert.Fatal, Description: alert.InternalError}, err
 		}
 	}
 
